@@ -783,11 +783,21 @@ func (c *Ctx) havoc(st *State, locs []ModLoc, ntop T) {
 	for _, m := range locs {
 		if m.Everything {
 			c.nepochs++
+			step := epochStep{epoch: c.nepochs, prev: st.epoch, prevGhost: st.ghostEpoch, except: m.Except}
+			st.chain = append(st.chain, step)
 			st.epoch = c.nepochs
 			c.epochTop[st.epoch] = ntop
-			st.heap = map[string]T{}
+			nh := map[string]T{}
+			for k, v := range st.heap {
+				if exceptMatches(m.Except, k) {
+					nh[k] = v
+				}
+			}
+			st.heap = nh
 			for k := range st.ghost {
-				st.ghost[k] = c.sc.fresh("ghost", sInt)
+				if !exceptMatches(m.Except, "ghost:"+k) {
+					st.ghost[k] = c.sc.fresh("ghost", sInt)
+				}
 			}
 			st.ghostEpoch = st.epoch
 			continue
@@ -870,6 +880,25 @@ func (c *Ctx) declRoot() {
 func (c *Ctx) frameObligations(name string, from, to *State, locs []ModLoc, reach T, oldTop T, pos token.Pos) {
 	for _, m := range locs {
 		if m.Everything {
+			// only the excepted keys are framed: they must be unchanged
+			var ks []string
+			for k, t := range to.heap {
+				if !exceptMatches(m.Except, k) {
+					continue
+				}
+				if c.heapGet(from, k, c.heapSort[k]) != t {
+					ks = append(ks, k)
+				}
+			}
+			sort.Strings(ks)
+			for _, k := range ks {
+				c.oblige("frame", name+":"+k, nil, reach, eq(c.heapGet(from, k, c.heapSort[k]), to.heap[k]), pos, k+" is excepted from `modifies everything` and must be unchanged")
+			}
+			for k, t := range to.ghost {
+				if exceptMatches(m.Except, "ghost:"+k) && c.ghostGet(from, k) != t {
+					c.oblige("frame", name+":ghost:"+k, nil, reach, eq(c.ghostGet(from, k), t), pos, "ghost counter "+k+" unchanged")
+				}
+			}
 			return
 		}
 	}
@@ -968,8 +997,8 @@ func (c *Ctx) ghostGet(st *State, k string) T {
 	if t, ok := st.ghost[k]; ok {
 		return t
 	}
-	if st.ghostEpoch > 0 {
-		n := fmt.Sprintf("Ge%d.%s", st.ghostEpoch, smtSym(k))
+	if e := st.baseGhostEpoch(k); e > 0 {
+		n := fmt.Sprintf("Ge%d.%s", e, smtSym(k))
 		c.sc.declare(n, sInt)
 		return n
 	}
